@@ -500,6 +500,34 @@ type vPlan struct {
 	Restart  []bool  `json:"restart"`  // before batch i the service is restarted (builder re-created, index directory re-listed)
 	Cached   []bool  `json:"cached"`   // ... with the known-pcap cache of the state file
 	Interval uint64  `json:"interval"` // packets between reassembly snapshots
+	Quiet    []int   `json:"quiet"`    // > 0: import call i also names a capture without packets (written during a quiet period), at position Quiet[i]-1
+}
+
+// a well-formed capture file without any packet
+var vQuietCapture = []byte{0xd4, 0xc3, 0xb2, 0xa1, 2, 0, 4, 0, 0, 0, 0, 0, 0, 0, 0, 0, 0, 0, 1, 0, 1, 0, 0, 0}
+
+func vQuiet(rt *rapid.T, p *vPlan) {
+	for _, b := range p.Batches {
+		q := 0
+		if rapid.IntRange(0, 5).Draw(rt, "quiet capture") == 0 {
+			q = 1 + rapid.IntRange(0, len(b)).Draw(rt, "quiet position")
+		}
+		p.Quiet = append(p.Quiet, q)
+	}
+}
+
+// vBatchNames are the file names of import call bi; the capture without packets is written on the way.
+func vBatchNames(s *vtraffic.Scenario, plan *vPlan, bi int, pcapDir string) ([]string, error) {
+	names := vNames(s, plan.Batches[bi])
+	if bi < len(plan.Quiet) && plan.Quiet[bi] > 0 {
+		qn := fmt.Sprintf("quiet%02d.pcap", bi)
+		if err := os.WriteFile(filepath.Join(pcapDir, qn), vQuietCapture, 0o644); err != nil {
+			return nil, err
+		}
+		at := min(plan.Quiet[bi]-1, len(names))
+		names = append(names[:at:at], append([]string{qn}, names[at:]...)...)
+	}
+	return names, nil
 }
 
 func vSplit(rt *rapid.T, arrival []int, oneShotWeight int) [][]int {
@@ -642,6 +670,7 @@ const (
 	vFindingSeqWrap      = "F-C05-tcp-seq-wrap-disorder"
 	vFindingSnapComplete = "F-C08-snapshot-forgets-closed-connection"
 	vFindingStaleSplit   = "F-C08-stale-stream-after-late-capture-fills-hole"
+	vFindingQuietCapture = "F-C08-capture-without-packets-at-start"
 )
 
 func vOpen() map[string]bool {
@@ -834,6 +863,7 @@ func TestVerifC08(t *testing.T) {
 			c.Count("excluded_known", 1)
 		}
 		vRestarts(rt, plan)
+		vQuiet(rt, plan)
 		plan.Interval = rapid.SampledFrom(vIntervals).Draw(rt, "snapshot interval")
 		c.Render(func() any { return map[string]any{"traffic": s.Render(), "plan": plan} })
 		vTrafficLabels(c, s)
@@ -913,7 +943,16 @@ func vRunC08(s *vtraffic.Scenario, plan *vPlan, c *vlib.Case) (out vC08Outcome) 
 				return
 			}
 		}
-		res, err := im.importFiles(vNames(s, batch))
+		names, err := vBatchNames(s, plan, bi, im.pcapDir)
+		if err != nil {
+			out.msg = "harness: " + err.Error()
+			return
+		}
+		if c != nil {
+			c.LabelIf(len(names) > len(batch), "import-call-names-capture-without-packets")
+			c.LabelIf(len(names) > len(batch) && bi < len(plan.Batches)-1 && plan.Restart[bi+1], "restart-with-capture-without-packets-in-directory")
+		}
+		res, err := im.importFiles(names)
 		if err != nil {
 			out.msg = fmt.Sprintf("batch %d: %v", bi, err)
 			return
@@ -1017,6 +1056,7 @@ func TestVerifC08Large(t *testing.T) {
 			c.Count("excluded_known", 1)
 		}
 		vRestarts(rt, plan)
+		vQuiet(rt, plan)
 		c.Render(func() any {
 			st := s.Stats()
 			caps := []string{}
@@ -1055,7 +1095,7 @@ func TestVerifC08Fixed(t *testing.T) {
 // fixed cases (probes of open findings / regression cases of repaired ones)
 
 var vC05FixedNames = []string{vFindingSeqWrap}
-var vC08FixedNames = []string{vFindingSnapComplete, vFindingStaleSplit}
+var vC08FixedNames = []string{vFindingSnapComplete, vFindingStaleSplit, vFindingQuietCapture}
 
 func vEP(ip string, port uint16) vtraffic.Endpoint {
 	a := net.ParseIP(ip)
@@ -1114,6 +1154,16 @@ func vFixedCase(name string) (string, any) {
 		u.Datagram(vtraffic.C2S, 6)
 		s = m.Finish()
 		plan = &vPlan{Arrival: []int{0, 2, 1}, Batches: [][]int{{0}, {2}, {1}}, Restart: []bool{false, false, false}, Cached: []bool{false, false, false}, Interval: 100_000}
+		c08 = true
+	case vFindingQuietCapture:
+		// one UDP flow in two captures; a capture without packets is uploaded with the first one, then the service restarts
+		m := vtraffic.NewManual(base)
+		u := m.UDP(vEP("10.0.0.1", 5353), vEP("10.0.0.2", 53), 3)
+		u.Datagram(vtraffic.C2S, 4)
+		m.Cut()
+		u.Datagram(vtraffic.S2C, 5)
+		s = m.Finish()
+		plan = &vPlan{Arrival: []int{0, 1}, Batches: [][]int{{0}, {1}}, Restart: []bool{false, true}, Cached: []bool{false, true}, Interval: 100_000, Quiet: []int{2, 0}}
 		c08 = true
 	default:
 		return "unknown fixed case " + name, name
